@@ -259,6 +259,7 @@ CHECKS["C17"] = {
         J("history", "c17", "TestRebindHistory", 800, 20000, 4),
         J("argsvalues", "c17", "TestArgsValues", 300, 5000, 2),
         J("known", "c17", "TestKnownAnyNumberKind", None, None),
+        J("preinit", "c17", "TestPreInitializedConfigure", 500, 8000, 2),
     ],
     "assumptions": [
         "strings containing the placeholder / expression delimiters ${ and #{ are not generated: configured values containing placeholders are resolved by design (C16)",
